@@ -18,10 +18,24 @@ def execute(w, plan, ctx, finish):
   RelayWorld(w, plan, ctx, finish).run()
 
 
-def gen_destinations(rng, n, collide=False):
+# pairs of (server, instance) whose node hash -- what fast-hashing sorts its members by --
+# is identical (found by brute force with the reference hash)
+COLLIDING_NODES = {
+  'carbon_ch': [(('10.0.4.9', 'a'), ('10.0.7.9', 'b')), (('10.0.2.1', None), ('10.0.8.15', 'b')),
+                (('10.0.6.5', 'a'), ('10.0.14.12', 'b'))],
+  'fnv1a_ch': [(('10.0.7.8', None), ('10.0.8.2', 'b')), (('10.0.7.5', 'a'), ('10.0.10.2', 'a')),
+               (('10.0.8.9', 'b'), ('10.0.13.3', 'a'))],
+}
+
+
+def gen_destinations(rng, n, collide=False, node_collision=None):
   out = []
   seen = set()
   tries = 0
+  if node_collision and n >= 2:
+    for (h, inst) in rng.choice(COLLIDING_NODES[node_collision]):
+      seen.add((h, inst))
+      out.append((h, 2004 + 100 * len(out), inst))
   while len(out) < n and tries < 200:
     tries += 1
     h = rng.choice(HOSTS)
@@ -87,7 +101,9 @@ def gen_config(rng, tier, profile):
   if profile == 'c09':
     nd = rng.choice([1, 2, 3, 3, 4])
   ht = rng.choice(['carbon_ch', 'fnv1a_ch'])
-  dests = gen_destinations(rng, nd, collide=(profile == 'c06' and rng.random() < 0.5))
+  dests = gen_destinations(rng, nd, collide=(profile == 'c06' and rng.random() < 0.5),
+                           node_collision=(ht if (profile in ('c05', 'c16') and 'fast' in method
+                                                  and rng.random() < 0.5) else None))
   s['DESTINATIONS'] = [dest_str(d) for d in dests]
   s['ROUTER_HASH_TYPE'] = ht
   s['REPLICATION_FACTOR'] = rng.choice([1, 1, 2, 3, 4]) if profile in ('c05', 'c06', 'c16') else rng.choice([1, 1, 2])
